@@ -20,7 +20,7 @@ type BXSystem struct {
 	// New builds a fresh real object and a fresh model (called inside a vrt execution).
 	New func() BXRun
 	// Ops is the operation alphabet (labels); Enabled filters by model state.
-	Ops []string
+	Ops   []string
 	Epoch int64
 }
 
